@@ -47,17 +47,22 @@ PROPS = {
     },
     "C03": {
         "module": "MF.Props.C03",
-        "module_extra": ["MF.Props.C03Parser"],
+        "module_extra": ["MF.Props.C03Parser", "MF.Props.C03Types"],
         "theorems": ["MF.Props.C03.lexer_never_panics", "MF.Props.C03.lexer_error_in_range", "MF.Props.C03.recovery_lexer_total",
                      "MF.Props.C03.cursor_invariant", "MF.Props.C03.lexer_terminates", "MF.Props.C03.splitter_total",
                      "MF.Props.C03.facts_clean", "MF.Props.C03.entry_points", "MF.Props.C03.protected_functions", "MF.Props.C03.handlers_quiet",
-                     "MF.Props.C03.no_escape_static", "MF.Props.C03.no_escape", "MF.Props.C03.entry_shapes_static", "MF.Props.C03.entry_no_escape"],
-        "channels": ["LEX", "SPLIT", "POS"],
+                     "MF.Props.C03.no_escape_static", "MF.Props.C03.no_escape", "MF.Props.C03.entry_shapes_static", "MF.Props.C03.entry_no_escape",
+                     "MF.Props.C03.parseType_terminates", "MF.Props.C03.parseType_terminates_bound", "MF.Props.C03.fuel_bound_linear",
+                     "MF.Props.C03.production_terminates", "MF.Props.C03.parseType_fuel_stable", "MF.Props.C03.parseType_decides",
+                     "MF.Props.C03.reject_fuel_irrelevant", "MF.Props.C03.typeRun_total", "MF.Props.C03.typeRun_answers",
+                     "MF.Props.C03.rejA_facts", "MF.Props.C03.rejS_facts", "MF.Props.C03.rejG_facts"],
+        "channels": ["LEX", "SPLIT", "POS", "TYPE"],
         "pred": True,
         "level": "proof",
         "trusted_base": M0_TRUST + ["hand-written model MF/Model/Split.lean of split.go", "translator tools/extract/parserfacts.go (go/ast, purely syntactic): the call graph, defer/recover shapes, Bad* literal sites, p.errors assignments, <eof> tests, token-field uses, package variables of parser.go, parse_helpers.go, lexer.go, split.go are REGENERATED from /repo on every run (lean/MF/Gen/ParserFacts.lean) and the static conditions re-decided by the kernel", "abstraction MF/Model/Recovery.lean: only *Error panics are modelled (run-time panics are explored by the predicate under recover), calls leaving the four files neither raise *Error nor call back, a Part without recognised statement structure is read flow-insensitively (any order of its events)"],
         "assumptions": ["proved: lexer and splitter never panic and terminate (byte-level model); no *Error panic escapes any Parse* entry point (no_escape over the regenerated call graph: every raise site reachable from an entry point lies under a deferred recover whose handler cannot raise)",
-                        "NOT proved: termination of the productions of parser.go and absence of Go run-time panics (nil dereference, index) in them: every Parse* call of the predicate runs under recover and a 5 s deadline (partial)"],
+                        "proved for the ParseType entry point (model MF/Model/TypeParse.lean, tied to memefish.ParseType by the TYPE channel; every token list, accepted or rejected): the fuel-driven model answers ok or raise, never outOfFuel, with every fuel >= 3*|expand ts|+2 (<= 6*|ts|+2 <= the driver's topFuel), and from there on the answer does not depend on the fuel (parseType_terminates, parseType_terminates_bound, parseType_fuel_stable, parseType_decides); with lexer totality the TYPE request never answers FUEL or CRASH on any byte string (typeRun_total)",
+                        "NOT proved: termination of the other productions of parser.go and absence of Go run-time panics (nil dereference, index) in them: every Parse* call of the predicate runs under recover and a 5 s deadline (partial)"],
     },
     "C15": {
         "module": "MF.Props.C15",
